@@ -231,9 +231,27 @@ class Inliner:
         subst: dict[str, ast.expr] = {}
         rename: dict[str, str] = {}
         pre: list[ast.stmt] = []
+        body0 = [s_ for s_ in fn.body if not _is_docstring(s_)]
+        first_hdr: list[ast.AST] = []
+        if body0:
+            f0 = body0[0]
+            if isinstance(f0, (ast.For,)):
+                first_hdr = [f0.iter]
+            elif isinstance(f0, (ast.If, ast.While)):
+                first_hdr = [f0.test]
+            elif isinstance(f0, (ast.Assign, ast.AnnAssign, ast.AugAssign, ast.Return, ast.Expr)) and getattr(f0, "value", None) is not None:
+                first_hdr = [f0.value]
+        uses: dict[str, int] = {}
+        for n_ in ast.walk(fn):
+            if isinstance(n_, ast.Name) and isinstance(n_.ctx, ast.Load):
+                uses[n_.id] = uses.get(n_.id, 0) + 1
+        hdr_names = {n_.id for h in first_hdr for n_ in ast.walk(h) if isinstance(n_, ast.Name)}
         for p in params:
             a = bound[p]
-            if _simple_arg(a) and p not in assigned:
+            # an argument expression used exactly once, in the first expression the helper evaluates, can be substituted
+            # in place (nothing of the helper runs between the call and that use)
+            once_first = uses.get(p, 0) == 1 and p in hdr_names and p not in assigned and not any(isinstance(x, (ast.NamedExpr, ast.Yield, ast.Await)) for x in ast.walk(a))
+            if (_simple_arg(a) or once_first) and p not in assigned:
                 if isinstance(a, ast.Name) and a.id == p:
                     continue
                 subst[p] = a
